@@ -17,6 +17,8 @@ RelArr = z3.ArraySort(sym.Obj, ObjBoolArr)
 
 class TopoBase(Contract):
     file = CORE
+    # sinks.py: the node classes defined there override topology methods (Sink.destroy); a call on an arbitrary node may reach them
+    files = [CORE, 'streamz/sinks.py']
     harness = 'topology_harness'
     assumptions = ('pipelines without parallel edges (set semantics of the link relations suffice)',
                    'OrderedWeakrefSet.add/remove behave like set add/remove on live members; remove of an absent member '
